@@ -153,7 +153,9 @@ class C18(FsProp):
                     out.append({"cmd": "recheck", "spelling": "recheck", "path_mode": "parent", "version": v, "P": B,
                                 "tree": t, "damage": dmg, "clauses": ["C18.readonly"]})
                 out.append({"cmd": "info", "version": v, "P": B, "tree": t, "clauses": ["C18.readonly"],
-                            "opts": {"announce": ["http://a/x"], "url_list": ["http://w/"], "comment": "c", "private": True}})
+                            "opts": {"announce": ["http://a/x", "http://b/y"], "url_list": ["http://w/", "http://w2/"],
+                                     "httpseeds": ["http://h/"], "comment": "c", "source": "s", "private": True}})
+                out.append({"cmd": "info", "version": v, "P": B, "tree": t, "clauses": ["C18.readonly"], "opts": {}})
                 for sp in ("magnet", "m"):
                     for mver in (None, 0, 1, 2, 3):
                         if mver in (2, 3) and v == 1:
@@ -177,7 +179,7 @@ class C18(FsProp):
             if c["cmd"] != "rename":
                 c["cwd_mode"] = "elsewhere" if k % 3 == 0 else "metadir"
         if tier != "thorough":
-            out = [c for k, c in enumerate(out) if c["cmd"] in ("rename",) or k % 2 == 0]
+            out = [c for k, c in enumerate(out) if c["cmd"] in ("rename", "info") or k % 2 == 0]
         return out
 
     def corruptions(self, recs):
